@@ -10,6 +10,7 @@ package main
 //   gv  <t> <v> <s> <nSI> <nXf> <raw> (*xlsxC).getValueFrom: shared-string index and style index lookups
 //   gvc <t> <v> <s> <nSI> <nXf>      same, outcome class only (cells taken from mutants: number formats not modelled)
 //   sd  <info> <pkg>                 Decrypt's dispatch after extractPart: encryptionMechanism + standardDecrypt
+//   zl  <fixture> <limit> <xmlLimit> <sizes>   OpenReader of an unmutated fixture under UnzipSizeLimit / UnzipXMLSizeLimit
 //   mut <fixture> <mode> <level> <part> <kind> <a> <b> <val> <path>   one mutant through the call battery (result "-")
 //
 // Direct oracle: every mutant of the enumerated space runs the fixed battery in
@@ -22,6 +23,7 @@ package main
 // in-process hook result that the Lean model is compared with.
 
 import (
+	"bytes"
 	"encoding/binary"
 	"encoding/hex"
 	"fmt"
@@ -189,6 +191,71 @@ func (c *c14Ctx) opSD(info, pkg []byte) string {
 	return res
 }
 
+// zl: size accounting of ReadZipReader. sizes = declared uncompressed sizes of the zip entries, in order.
+func (c *c14Ctx) opZL(fix *c14Fixture, limit, xmlLimit int64) {
+	var sizes []string
+	var total int64
+	for _, p := range fix.parts {
+		sizes = append(sizes, strconv.Itoa(len(p.data)))
+		total += int64(len(p.data))
+	}
+	res := c14Guard(func() string {
+		f, err := xl.OpenReader(bytes.NewReader(fix.raw), xl.Options{UnzipSizeLimit: limit, UnzipXMLSizeLimit: xmlLimit})
+		if f != nil {
+			f.Close()
+		}
+		if err != nil {
+			return "ERR"
+		}
+		return "ok"
+	})
+	op := fmt.Sprintf("zl %s %d %d %s", fix.name, limit, xmlLimit, strings.Join(sizes, ","))
+	ln := c.r.Op(op, res)
+	c.r.Case(op, true)
+	c.r.Stat("zl:" + res)
+	switch {
+	case res == "PANIC":
+		c.r.Fail("panic:OpenReader:limits", fmt.Sprintf("OpenReader panics on %s with UnzipSizeLimit=%d UnzipXMLSizeLimit=%d", fix.name, limit, xmlLimit), ln, op)
+	case res == "ok" && total > limit:
+		c.r.Fail("limit:accepted-oversized", fmt.Sprintf("OpenReader accepts %s (declared uncompressed size %d bytes) with UnzipSizeLimit=%d, UnzipXMLSizeLimit=%d: parts spooled to temporary files are not counted", fix.name, total, limit, xmlLimit), ln, op)
+	case res == "ERR" && total <= limit && xmlLimit <= limit:
+		c.r.Fail("limit:rejected-within-limit", fmt.Sprintf("OpenReader rejects %s (declared uncompressed size %d bytes) with UnzipSizeLimit=%d, UnzipXMLSizeLimit=%d", fix.name, total, limit, xmlLimit), ln, op)
+	}
+}
+
+// c14GenZL: every plain fixture under limits around its total size, around the size of its largest
+// part and around the size of everything but its worksheets / shared strings (the parts that may be spooled).
+func c14GenZL(c *c14Ctx, fx []*c14Fixture) {
+	for _, fix := range fx {
+		if fix.pw != "" {
+			continue
+		}
+		var total, largest, spoolable int64
+		for _, p := range fix.parts {
+			n := int64(len(p.data))
+			total += n
+			if n > largest {
+				largest = n
+			}
+			l := strings.ToLower(p.name)
+			if strings.HasPrefix(l, "xl/worksheets/sheet") || l == "xl/sharedstrings.xml" {
+				spoolable += n
+			}
+		}
+		rest := total - spoolable
+		seen := map[[2]int64]bool{}
+		for _, limit := range []int64{total - 1, total, total + 1, total / 2, largest - 1, largest, rest, rest + 1, rest + spoolable/2, 100, 1 << 20} {
+			for _, xmlLimit := range []int64{1, 512, 1024, limit} {
+				if limit < 1 || xmlLimit > limit || seen[[2]int64{limit, xmlLimit}] {
+					continue
+				}
+				seen[[2]int64{limit, xmlLimit}] = true
+				c.opZL(fix, limit, xmlLimit)
+			}
+		}
+	}
+}
+
 // ---- generators for the modelled functions ------------------------------------
 
 var c14BadRefs = []string{"A0", "1A", "A", "1", "A1048577", "XFE1", "ZZZZZZZZZZZZZZZ1", "A-1", "$A$1", "a1", "A01", "A1:B2", " A1"}
@@ -314,6 +381,14 @@ func (c *c14Ctx) replayLine(fx func() []*c14Fixture, line string, pool func() *c
 	case "sd":
 		if len(w) == 3 {
 			c.opSD([]byte(unhx(w[1])), []byte(unhx(w[2])))
+		}
+	case "zl":
+		if len(w) >= 4 {
+			for _, f := range fx() {
+				if f.name == w[1] {
+					c.opZL(f, int64(at(2)), int64(at(3)))
+				}
+			}
 		}
 	case "mut":
 		m := c14ParseMut(fx(), w)
@@ -480,7 +555,7 @@ func runC14(r *Run, rng *Rng, replay string) {
 	// 2. generated decoded values for the modelled functions
 	nCS, nGV, nSD := 2500, 1200, 60
 	if thorough {
-		nCS, nGV, nSD = 40000, 30000, 3000
+		nCS, nGV, nSD = 15000, 8000, 600
 	}
 	for i := 0; i < nCS; i++ {
 		ctx.opCS(c14GenSpec(rng, false))
@@ -515,10 +590,19 @@ func runC14(r *Run, rng *Rng, replay string) {
 	}
 	c14Dbg("cs/gv done", t0)
 	c14GenSD(ctx, rng, nSD)
+	c14GenZL(ctx, fx())
 	c14Dbg("sd done", t0)
 	// 3. the mutation space
 	all := c14Enumerate(fx(), thorough)
 	sel := all
+	full := os.Getenv("VH_C14_FULL") == "1"
+	if thorough && !full {
+		// deterministic stride: every 4th mutant of the enumeration, phase rotating with the seed
+		sel = nil
+		for i := int(r.Seed % 4); i < len(all); i += 4 {
+			sel = append(sel, all[i])
+		}
+	}
 	if !thorough {
 		sel = c14Select(all, r.Seed, map[string]int{"xml": 2000, "part": 160, "zip": 260, "cfb": 220, "stream": 220, "ixml": 160})
 	}
@@ -604,7 +688,10 @@ func runC14(r *Run, rng *Rng, replay string) {
 		}
 		r.Sample(s)
 	}
-	r.Exhaust = thorough
+	r.Exhaust = thorough && full
+	if thorough && !full {
+		r.Notes = append(r.Notes, "thorough tier runs every 4th mutant of the enumeration (phase = seed mod 4); VH_C14_FULL=1 runs all of it")
+	}
 	// distribution per fixture
 	perFix := map[string]int{}
 	for _, m := range sel {
